@@ -72,11 +72,13 @@ def scenario(sh: Shard, seed, idx):
         # the responders answer every broadcast hello they hear
         deadline = t0 + GeckoConfig.DISCOVERY_TIMEOUT_IN_SECONDS + 5
         first_arrival = {}
+        heard = [0]
         while "t" not in done and s.now < deadline:
             for x in resp:
                 while x["sock"].inbox:
                     data, src = x["sock"].inbox.popleft()
                     if data == b"<HELLO>1</HELLO>":
+                        heard[0] += 1
                         for _ in range(x["copies"]):
                             n0 = len(net.log)
                             x["sock"].sendto(b"<HELLO>" + x["ident"] + b"|" + x["name"].encode("latin1") + b"</HELLO>", src)
@@ -128,6 +130,8 @@ def scenario(sh: Shard, seed, idx):
                 sh.violation("C15:threaded:descriptor-not-intact", f"descriptor ({d.identifier!r}, {d.name!r}, {d.ipaddress}) matches no responder", wit)
         if dur > T_MAX + slack:
             sh.violation("C15:threaded:over-timeout", f"blocking discovery took {dur:.2f}s (timeout {T_MAX}s)", wit)
+        if dur > 1.5 and resp and heard[0] == 0:
+            sh.violation("C15:threaded:no-hello-reached-the-spas", f"blocking discovery ran {dur:.2f}s and none of the {len(resp)} spas on the network heard a hello (sent to {sorted({a for x in net.created if getattr(x, 'implicit', False) for _, _, a in x.sent})})", wit)
         if dur > 1.5 and not any(d_ == b"<HELLO>1</HELLO>" for x in net.created if getattr(x, "implicit", False) for _, d_, _ in x.sent):
             sh.violation("C15:threaded:no-hello-sent", f"blocking discovery ran {dur:.2f}s without a single hello leaving its socket", wit)
         if target is not None and target["ident"] in first_arrival and first_arrival[target["ident"]] - t0 < T_MAX - slack:
